@@ -198,6 +198,7 @@ def cases(tier):
                         if model in HAS_CONS and len(set(longest)) >= 2:
                             seq = list(dict.fromkeys(longest))
                             if (gi + mi) % 2 == 0 or not quick:
+                                yield _mk(model, G, vals, wt, k, "constraint", cons=[[a]], constype="nodes", cov=1.0)           # a single node as a constraint
                                 yield _mk(model, G, vals, wt, k, "constraint", cons=[seq[:2]], constype="nodes", cov=1.0)
                                 yield _mk(model, G, vals, wt, k, "constraint", cons=[seq, seq[-2:]], constype="nodes", cov=0.5)
                             if (gi + mi) % 2 == 1 or not quick:
@@ -403,6 +404,24 @@ def check_rel(case):
             H = rn["graph"]
             if set(H.nodes()) != set(G.nodes()) or set(H.edges()) != set(G.edges()):
                 return _fail("MinErrorFlow in node mode: corrected graph is not on the caller's nodes and edges", "nodes %s edges %s | %s" % (list(H.nodes()), list(H.edges()), inst))
+            # the corrected values handed back on the caller's nodes are the ones the reported error speaks about: get_objective_value() is documented as
+            # the (unscaled) sum of absolute changes over the elements that count (not ignored, not scaled to 0)
+            vals = {v: x for v, x in case["nodes"] if x is not None and v not in case["missing"]}
+            skip = set(case["ignore"]) | set(case["missing"])
+            sc = {v: s_ for v, s_ in case["scale"]}
+            tot = 0
+            for v, x in vals.items():
+                if v in skip:
+                    continue
+                got = H.nodes[v].get("flow")
+                if got is None:
+                    return _fail("MinErrorFlow in node mode: a valued node has no value in the corrected graph", "node %s | %s" % (v, inst))
+                if sc.get(v, 1) == 0:
+                    continue
+                tot += abs(x - got)
+            if not close(tot, rn["obj"], wt):
+                return _fail("MinErrorFlow in node mode: the corrected node values do not add up to the reported objective",
+                             "recomputed total change %s, objective %s; corrected values %s | %s" % (tot, rn["obj"], {v: H.nodes[v].get("flow") for v in vals}, inst))
         else:
             for r in rn["routes"]:
                 good, why = is_route(G, r, case["starts"], case["ends"], simple=not cyc)
@@ -506,6 +525,12 @@ def check_api(case):
         e = X.get_expanded_edge((u, v))
         if e != (u + ".1", v + ".0") or not X.has_edge(*e):
             return _fail("get_expanded_edge(edge) is not the edge (u.1, v.0) of the expanded graph", "%s -> %s | %s" % ((u, v), e, inst))
+        # lengths live on the nodes: the expanded node edge carries the node's length, an expanded original edge (without its own length) has length 0
+        if X.edges[e].get("len", 1) != 0:
+            return _fail("expanded original edge without a length attribute does not get length 0 (lengths are counted on the nodes)", "%s: %s | %s" % (e, X.edges[e].get("len", "absent (= 1)"), inst))
+    for v in G:
+        if X.edges[(v + ".0", v + ".1")].get("len") != 2:
+            return _fail("expanded node edge does not carry the node's length", "%s: %s | %s" % (v, X.edges[(v + ".0", v + ".1")].get("len"), inst))
     want_ign = {(u + ".1", v + ".0") for u, v in G.edges()} | {(v + ".0", v + ".1") for v in case["missing"]}
     if set(X.edges_to_ignore) != want_ign:
         return _fail("edges_to_ignore is not {expanded original edges} + {(v.0,v.1): v lacks the attribute}", "got %s want %s | %s" % (sorted(X.edges_to_ignore), sorted(want_ign), inst))
